@@ -151,7 +151,7 @@ PROPERTY = dict(
     bounds={'quick': dict(sphere='every string over ACGTN of length 1..3, distance 0..2', resolution='every whitelist of 1..2 barcodes of length 2 over ACGTN (incl. duplicates, N) x k 0..2 x all 25 queries; three-barcode whitelists with the first barcode AA or CG',
                           lazy='2 lazily loaded aliases, both access orders, via lookup and via parser[alias], k 0..1', formats='1..3 lines, barcode-first / index-first / single column, tab or blank, numeric index from {0,7,400} or named'),
             'thorough': dict(sphere='length 4 too', resolution='+ every whitelist of 3 length-2 barcodes, every pair of length-3 barcodes (15625 whitelists) x k 1..2 x all 125 queries')},
-    outside=['barcodes longer than 3 (the sphere lemma + resolution over arbitrary geometry are size-parametric: argument only)', 'letters other than ACGTN', 'the shipped whitelist files (read only by replays)'],
+    outside=['barcodes longer than 3 (the sphere lemma + resolution over arbitrary geometry are size-parametric: argument only)', 'letters other than ACGTN', 'the shipped whitelist files (read only by replays)', 'expand() called again on an alias after more barcodes were added (stale entries)', 'index names made only of the letters A C G T N X (column order heuristic of parse_barcode_file)', 'blank lines in barcode files'],
     assumptions=['whitelists / queries are selected by symbolic indices into the complete set of strings of the stated length, so each path runs the real parser concretely; the solver enumerates the index space exhaustively',
                  'builtin open() inside barcodeFileParser replaced by an in-memory file table (L3/L4)'],
     trusted=['spec/c03.py brute-force oracle'],
